@@ -1066,8 +1066,54 @@ def scope_lemma():
                  subset(BND(l), union(SCOPE(l, B), B, IDENTS(l))))]
 
 
+class MapForeign(FunctionContract):
+    """ExtendedDependencyMapper.map_foreign(expr): dagrt's one addition to pymbolic's DependencyMapper (A-DEP).  None and
+    strings have no dependencies; everything else is what the base class says."""
+    prop = PROP
+    relpath = "dagrt/expression.py"
+    qualname = "ExtendedDependencyMapper.map_foreign"
+
+    def __init__(self, kind):
+        self.kind = kind
+        self.variant_name = kind
+
+    def params(self, ctx):
+        ctx.env["self"] = VObj(TObj("Mapper", {}), {})
+        ctx.env["expr"] = {"None": NONE, "str": VStr(z3.String("expr_text")), "other": VPy("<foreign value>")}[self.kind]
+
+    def isinstance_hook(self, ctx, it, obj, names):
+        o = ctx.deref(obj)
+        if names == ["str"]:
+            return VBool(z3.BoolVal(isinstance(o, VStr)))
+        return None
+
+    def m_super(self, ctx, it, args, kw):
+        a = ctx.deref(args[0])
+        if len(args) != 1 or kw or not (isinstance(a, VPy) and a.py == "<foreign value>"):
+            raise Unsupported("super().map_foreign(%r)" % (args,))
+        return VPy("<DependencyMapper.map_foreign(expr)>")
+
+    calls = property(lambda self: {"super().map_foreign": self.m_super})
+    names = {"frozenset": VFunc("frozenset", m_frozenset)}
+
+    def ensures(self, st):
+        r = st._deref(st.result)
+        if self.kind == "other":
+            return [("everything-but-None-and-strings-is-left-to-the-base-class",
+                     z3.BoolVal(isinstance(r, VPy) and r.py == "<DependencyMapper.map_foreign(expr)>"))]
+        if not isinstance(r, VSet):
+            return [("returns-a-set", z3.BoolVal(False))]
+        return [("None-and-strings-have-no-dependencies", r.t == empty())]
+
+
 def units():
+    from pyvc.contracts import ClassShapeUnit
     us = [
+        ClassShapeUnit("dagrt/expression.py", "ExtendedDependencyMapper", {"map_foreign"}, ["DependencyMapper"], "A-DEP"),
+        FunctionUnit(MapForeign("None")), FunctionUnit(MapForeign("str")), FunctionUnit(MapForeign("other")),
+        ClassShapeUnit("dagrt/expression.py", "EvaluationMapper",
+                       {"__init__", "map_variable", "map_generic_call", "map_call", "map_call_with_kwargs"},
+                       ["EvaluationMapperBase"], "A-EVAL"),
         FunctionUnit(DeclContract("StatementBase.get_read_variables", lambda s: empty())),
         FunctionUnit(AssignBaseReads()),
         # ConditionalStatementBase.get_read_variables: super() | vars(condition); proved for any super()
